@@ -17,6 +17,7 @@ Property theorems only; proofs delegate to Lemmas/Symbolic.lean.
 -/
 import Macaroon.Lemmas.Symbolic
 import Macaroon.Props.C07
+import Macaroon.Props.C06
 
 namespace Macaroon.Props.Symbolic
 open Macaroon Macaroon.Symbolic Macaroon.Symbolic.Term Crypto
@@ -372,6 +373,117 @@ theorem run_no_forgery_closed (Sec : Nat → Prop) (s : St)
   · exact ⟨h, hmem, (encNonceT_injective hn).symm, by rw [map_encT_injective hc]; exact List.prefix_refl _,
       fun _ => (map_encT_injective hc).symm⟩
 
+/-! ### 8. direct forms (C01, C04, C06, C08) -/
+
+/-- C01 `tail_determines_token`: under one issuer key a tail is accepted with at most one nonce and one
+caveat sequence.  A held tail cannot be re-used with another key-id, random part, version or proof
+flag, nor with a caveat dropped, moved, altered or appended: whatever is accepted with the same tail
+is the same token (up to its unauthenticated location). -/
+theorem tail_determines_token (a : Nat) (m m' : Mac Term) (dms dms' : List (Mac Term)) (pids pids' : List Term)
+    (ta ta' : Bool) (tr tr' : Bytes → List Term) (cs cs' : List (Cav Term))
+    (hv : verifyWith (atom a) m dms pids ta tr = .ok cs)
+    (hv' : verifyWith (atom a) m' dms' pids' ta' tr' = .ok cs')
+    (ht : m.tail = m'.tail) : m.nonce = m'.nonce ∧ m.cavs = m'.cavs := by
+  have h1 := sym_verify_tail _ _ _ _ _ _ _ hv
+  have h2 := sym_verify_tail _ _ _ _ _ _ _ hv'
+  rw [ht, h2] at h1
+  cases hp : m.nonce.proof <;> cases hp' : m'.nonce.proof <;> rw [hp, hp'] at h1 <;>
+    simp only [Bool.false_eq_true, if_false, if_true, id] at h1
+  · obtain ⟨_, hn, hc⟩ := chain_unique h1
+    exact ⟨(encNonceT_injective hn).symm, (map_encT_injective hc).symm⟩
+  · have := chain_isMac (mac (atom a) (encNonceT m.nonce)) (m.cavs.map encT) rfl
+    rw [← h1] at this; cases this
+  · have := chain_isMac (mac (atom a) (encNonceT m'.nonce)) (m'.cavs.map encT) rfl
+    rw [h1] at this; cases this
+  · injection h1 with h1
+    obtain ⟨_, hn, hc⟩ := chain_unique h1
+    exact ⟨(encNonceT_injective hn).symm, (map_encT_injective hc).symm⟩
+
+/-- C04 `ticket_wrong_key`: a ticket sealed for one third-party key does not open under another: no
+conditions are recovered and no discharge is prepared -/
+theorem ticket_wrong_key (ka ka' n dk : Term) (cs : List (Cav Term)) (loc : Bytes) (rnd : Term) (p : Bool)
+    (h : ka' ≠ ka) :
+    openTicket ka' (sealTicket ka n dk cs) = .cannotOpen ∧
+    dischargeTicket ka' loc (sealTicket ka n dk cs) rnd p = .error .cannotOpen := by
+  have h1 : openTicket ka' (sealTicket ka n dk cs) = .cannotOpen := by
+    simp [Crypto.openTicket, Crypto.sealTicket, openTicketT, Ne.symm h]
+  exact ⟨h1, by unfold dischargeTicket; rw [h1]⟩
+
+/-- C04 `ticket_altered`: anything that is not a ciphertext under the third-party key (a ticket whose
+key, i.e. authentication, does not fit — every altered ticket, with perfect cryptography) is refused -/
+theorem ticket_altered (ka t : Term) (loc : Bytes) (rnd : Term) (p : Bool)
+    (h : ∀ n pl, t ≠ box ka n pl) : dischargeTicket ka loc t rnd p = .error .cannotOpen := by
+  have h1 : openTicket ka t = .cannotOpen := by
+    cases t <;> simp only [Crypto.openTicket, openTicketT]
+    case box k n pl =>
+      by_cases hk : k = ka
+      · subst hk; exact absurd rfl (h n pl)
+      · simp [hk]
+  unfold dischargeTicket; rw [h1]
+
+/-- C04 `seal_twice_differs` (the deterministic half): two sealings of the same content under the same
+key are equal only if they drew the same AEAD nonce; that two draws differ is freshness of
+`crypto/rand` (in `Run`: fresh atoms), sampled on the Go side -/
+theorem seal_twice_differs_sym (ka n n' dk : Term) (cs : List (Cav Term)) (t : Term) (rn : Term) :
+    (sealTicket ka n dk cs = sealTicket ka n' dk cs → n = n') ∧
+    (sealKey t n rn = sealKey t n' rn → n = n') := by
+  constructor <;> intro h <;> simpa [Crypto.sealTicket, Crypto.sealKey] using h
+
+theorem tailsAfter_term (t : Term) (cs : List (Cav Term)) :
+    Lemmas.tailsAfter t cs = tailsT t (cs.map encT) := by
+  induction cs generalizing t with
+  | nil => rfl
+  | cons c cs ih => simp [Lemmas.tailsAfter, macCav, tailsT, ih]
+
+/-- C06 `bound_only_with_descendant`, through the verifier.  `x` is a token state under key `atom a'`
+and the discharge `d` carries the binding `Bind` computes for it.  If `d` verifies in the discharge
+role while `y` is being verified under `atom a` — i.e. against exactly the binding ids `verify`
+offers for `y` (C06 `binding_ids`) — then `x` is `y` or an ancestor state of `y`: same key, same
+nonce, `x`'s caveats a prefix of `y`'s.  Presented with a less-attenuated ancestor of `x`, a sibling
+or an unrelated token, `d` is rejected. -/
+theorem bound_only_with_descendant (a a' : Nat) (x y d : Mac Term) (key : Term) (ta : Bool) (r : List (Cav Term))
+    (hx : x.tail = chain (mac (atom a') (encNonceT x.nonce)) (x.cavs.map encT))
+    (hb : Cav.bind (bindId x.tail) ∈ d.cavs)
+    (hv : verifyFlat key d (C06.offeredIds (atom a) y) ta = .ok r) :
+    a' = a ∧ x.nonce = y.nonce ∧ x.cavs <+: y.cavs := by
+  have h := binding_checked key d _ ta r _ hv hb
+  apply bound_fails_elsewhere a a' x y hx
+  have e : C06.offeredIds (atom a) y =
+      (mac (atom a) (encNonceT y.nonce) :: tailsT (mac (atom a) (encNonceT y.nonce)) (y.cavs.map encT)).map sha := by
+    unfold C06.offeredIds
+    rw [tailsAfter_term]
+    rfl
+  rw [← e]; exact h
+
+/-- C06 `bound_accepted_only_with_descendant`: the same from an ACCEPTED presentation.  `y` is accepted
+with discharges `dms`; for one of its third-party caveats (`p` in the discharge queue) every presented
+candidate carries the binding to `x`.  Then `x` is `y` or an ancestor state of `y`. -/
+theorem bound_accepted_only_with_descendant (a a' : Nat) (x y : Mac Term) (dms : List (Mac Term))
+    (tr : Bytes → List Term) (cs : List (Cav Term))
+    (hx : x.tail = chain (mac (atom a') (encNonceT x.nonce)) (x.cavs.map encT))
+    (hv : verify (atom a) y dms tr = .ok cs)
+    (p : Pending Term) (hp : p ∈ Lemmas.pendOf (byTicket dms) (macNonce (atom a) y.nonce) y.cavs)
+    (hall : ∀ d ∈ p.ds, Cav.bind (bindId x.tail) ∈ d.cavs) :
+    a' = a ∧ x.nonce = y.nonce ∧ x.cavs <+: y.cavs := by
+  obtain ⟨css, hm, _⟩ := C06.binding_ids (atom a) y dms tr cs hv
+  obtain ⟨r, hf, _⟩ := Lemmas.mapM_mem _ _ css hm p hp
+  obtain ⟨d, hd, t, hvf⟩ := firstDischarge_some _ _ hf
+  exact bound_only_with_descendant a a' x y d p.key _ r hx (hall d hd) hvf
+
+/-- C08 `unfinalised_wire_tail_rejected`: a proof whose tail on the wire is the UNfinalised chain (an
+encoder that skipped finalisation, or a hand-built token using the honest chain) is rejected: the
+verifier finalises its recomputed chain before comparing, and no chain is its own finalisation -/
+theorem unfinalised_wire_tail_rejected (k : Term) (m : Mac Term) (dms : List (Mac Term)) (pids : List Term)
+    (ta : Bool) (tr : Bytes → List Term) (hp : m.nonce.proof = true)
+    (ht : m.tail = chain (mac k (encNonceT m.nonce)) (m.cavs.map encT)) :
+    ∀ cs, verifyWith k m dms pids ta tr ≠ .ok cs := by
+  intro cs hv
+  have h := sym_verify_tail _ _ _ _ _ _ _ hv
+  rw [hp, ht] at h
+  simp only [if_true] at h
+  have := chain_isMac (mac k (encNonceT m.nonce)) (m.cavs.map encT) rfl
+  rw [h] at this; cases this
+
 /-! ### executable sanity and non-vacuity
 
 The token logic runs on terms; the examples are checked by the kernel (`rfl`/`decide`). -/
@@ -585,6 +697,28 @@ example : ∃ d ∈ [exDA], d.nonce.proof = true ∧ Cav.flyioUserID 7 ∈ d.cav
       exact ⟨11, this, Or.inr (Or.inr rfl), fun _ h => h⟩)
     (.flyioUserID 7) (by decide)).2
 
+/-! the direct forms of section 8 -/
+
+example := tail_determines_token 0 ex3M1 { ex3M1 with loc := [7] } [ex3DF] [ex3DF] [] [] true true (fun _ => []) (fun _ => [])
+  [] [] (by rfl) (by rfl) rfl
+example := ticket_wrong_key (atom 5) (atom 6) (atom 12) (atom 11) [.isUser 3] [9] (atom 14) true (by decide)
+example : dischargeTicket (atom 6) [9] ex3Ticket (atom 14) true = .error .cannotOpen :=
+  (ticket_wrong_key (atom 5) (atom 6) (atom 12) (atom 11) [.isUser 3] [9] (atom 14) true (by decide)).2
+example : dischargeTicket (atom 5) [9] (lit [1, 2, 3]) (atom 14) true = .error .cannotOpen :=
+  ticket_altered (atom 5) (lit [1, 2, 3]) [9] (atom 14) true (by intro n pl h; cases h)
+example := (seal_twice_differs_sym (atom 5) (atom 12) (atom 12) (atom 11) [.isUser 3] ex3M0.tail (atom 11)).1 rfl
+example : 0 = 0 ∧ ex3M1.nonce = ex3M2.nonce ∧ ex3M1.cavs <+: ex3M2.cavs :=
+  bound_only_with_descendant 0 0 ex3M1 ex3M2 ex3B (atom 11) true [] rfl (by decide) (by rfl)
+theorem ex3_pend : (⟨[ex3B], atom 11⟩ : Pending Term) ∈
+    Lemmas.pendOf (byTicket [ex3B]) (macNonce (atom 0) ex3M2.nonce) ex3M2.cavs := by
+  have e : Lemmas.pendOf (byTicket [ex3B]) (macNonce (atom 0) ex3M2.nonce) ex3M2.cavs = [⟨[ex3B], atom 11⟩] := by rfl
+  rw [e]; exact List.mem_singleton.mpr rfl
+example : 0 = 0 ∧ ex3M1.nonce = ex3M2.nonce ∧ ex3M1.cavs <+: ex3M2.cavs :=
+  bound_accepted_only_with_descendant 0 0 ex3M1 ex3M2 [ex3B] (fun _ => []) [.action 1] rfl (by rfl) _ ex3_pend
+    (by intro d hd; simp only [List.mem_singleton] at hd; subst hd; decide)
+example := unfinalised_wire_tail_rejected (atom 11) { ex3D with newProof := false } [] [] false (fun _ => []) rfl rfl
+example : verifyFlat (atom 11) { ex3D with newProof := false } [] false = .error .invalid := by rfl
+
 end examples
 
 #print axioms sym_verify_tail
@@ -609,6 +743,15 @@ end examples
 #print axioms run_no_forgery
 #print axioms run_no_forgery_closed
 #print axioms attestation_no_forgery
+#print axioms tail_determines_token
+#print axioms ticket_wrong_key
+#print axioms ticket_altered
+#print axioms seal_twice_differs_sym
+#print axioms tailsAfter_term
+#print axioms bound_only_with_descendant
+#print axioms bound_accepted_only_with_descendant
+#print axioms unfinalised_wire_tail_rejected
+#print axioms ex3_pend
 #print axioms ex3Run
 #print axioms ex_rn_leaks
 #print axioms ex_forged_derivable
